@@ -69,6 +69,8 @@ def run_one(args):
             res[p] = (r.returncode, v)
         fired = [p for p, (rc, v) in res.items() if rc != 0 and v and not v[0].startswith("CHECK CRASHED")]
         detail = "; ".join("%s:%s" % (p, " ".join(x.strip() for x in v[:2])[:230]) for p, (rc, v) in res.items() if rc != 0)
+        if len(props) > 3:
+            detail = "fired: " + ",".join(fired)
         return m["name"], "caught" if fired else "MISSED", detail
     finally:
         shutil.rmtree(d, ignore_errors=True)
@@ -78,6 +80,7 @@ def main():
     args = sys.argv[1:]
     props = None
     flt = None
+    out_json = None
     jobs = 4
     files = []
     i = 0
@@ -87,6 +90,12 @@ def main():
             i += 2
         elif args[i] == "--filter":
             flt = args[i + 1]
+            i += 2
+        elif args[i] == "--all":
+            props = ["C%02d" % k for k in range(1, 19)]
+            i += 1
+        elif args[i] == "--json":
+            out_json = args[i + 1]
             i += 2
         elif args[i] == "--jobs":
             jobs = int(args[i + 1])
@@ -115,6 +124,8 @@ def main():
     out.sort()
     for name, st, detail in out:
         print("%-48s %-8s %s" % (name, st, detail))
+    if out_json:
+        json.dump([{"name": n, "status": st, "detail": d} for n, st, d in out], open(out_json, "w"), indent=1)
     print("caught %d / missed %d / skipped %d" % (sum(1 for o in out if o[1] == "caught"), sum(1 for o in out if o[1] == "MISSED"), sum(1 for o in out if o[1] == "skipped")))
     return 0
 
